@@ -39,7 +39,7 @@ def run(ctx):
                 regs.append(r)
         # shapes the DNF simplifier is sensitive to: complementary-looking comparisons on DIFFERENT keys with the same literal, on the same key
         # with different literals, of different kinds; gaps that look like `!= X.Y.*` but are not; a marker and a near-negation of a part of it
-        for t in markers.DNF_SHAPES:
+        for t in markers.DNF_SHAPES + markers.op_key_grid():
             r, _ = sess.parse(t)
             if r is not None:
                 regs.append(r)
